@@ -246,7 +246,9 @@ def make_native(yp, op, nstate):
         # inside the predicate is called wrongly)
         msg = "helper() missing 1 required positional argument: 'x'" if kind == "TypeError" else "raised inside the predicate %s" % fid
         nstate.boom_by_fid[fid] = {"TypeError": TypeError, "ValueError": ValueError, "KeyError": KeyError,
-                                   "RuntimeError": RuntimeError, "StopIteration": RuntimeError}[kind](msg)
+                                   "RuntimeError": RuntimeError, "StopIteration": RuntimeError, "AttributeError": AttributeError,
+                                   "IndexError": IndexError, "ZeroDivisionError": ZeroDivisionError, "OSError": OSError,
+                                   "NameError": NameError, "UnboundLocalError": UnboundLocalError, "AssertionError": AssertionError}[kind](msg)
 
     def body(args):
         nstate.calls[fid] = nstate.calls.get(fid, 0) + 1
